@@ -58,8 +58,9 @@ type toyTrace struct {
 	reads int // Read calls of the current Decode
 }
 
-// toyFuel: the real read loop may spin for ever (empty src, cap(dst) = 0, a reader with stale
-// input); the toy reader gives up after as many Reads as the model has fuel.
+// toyFuel: a read loop that spins for ever (before 375db5b: empty src, cap(dst) = 0, a reader with
+// stale input) must not take the harness down; the toy reader gives up after as many Reads as
+// the model has fuel.
 const toyFuel = 3000
 
 type toyStorm struct{}
@@ -361,7 +362,7 @@ func c20PoolCase(ctx *core.Ctx, r *rand.Rand, cfg toyCfg) (req string, want []st
 			ctx.Hist("c20.pool.decode-outcome", strings.SplitN(c20OutcomeStr(out, err, pan), ":", 2)[0])
 		}
 	}
-	req = fmt.Sprintf("codec.run %s asis %d %s", cfg, toyFuel, strings.Join(ops, " "))
+	req = fmt.Sprintf("codec.run %s fixed %d %s", cfg, toyFuel, strings.Join(ops, " "))
 	return req, want, cfg.String() + " " + strings.Join(ops, " ")
 }
 
